@@ -47,7 +47,7 @@ def actOfJson (a : Json) : Except String (Bool × Act) := do
   | _ => throw s!"unknown op {op}"
 
 /-- `{"m":"path","env":{..},"acts":[{"op","fwd","var","value","delim"|"words"}..],
-     "product":{..}?, "fromfile":bool?, "force":bool?, "oldenv":{..}?, "aliases":{..}?, "oldaliases":{..}?}`:
+     "product":{..}?, "fromfile":bool?, "eupspath":str|null, "force":bool?, "oldenv":{..}?, "aliases":{..}?, "oldaliases":{..}?}`:
 macro-expand the actions' arguments when a product is given, run them in order, stop at the first error.
 `{"m":"path","macro":"text","product":{..}}` expands one argument. -/
 def handle : Handler := fun j => do
@@ -55,7 +55,8 @@ def handle : Handler := fun j => do
     | some p => do pure (some (← prodOfJson p))
     | none => pure none
   match optObj j "macro", prod with
-  | some (Json.str t), some p => return Json.mkObj [("out", ofStr (PathAct.expandMacros p (Str.ofString t)))]
+  | some (Json.str t), some p =>
+    return Json.mkObj [("out", ofStr (PathAct.expandArg p (← jstrOpt j "eupspath") (Str.ofString t)))]
   | _, _ => pure ()
   let env ← envOfJson (← j.getObjVal? "env")
   let force := match optObj j "force" with | some (Json.bool b) => b | _ => false
@@ -64,8 +65,9 @@ def handle : Handler := fun j => do
   let oldAliases ← match optObj j "oldaliases" with | some o => omapOfJson o | none => pure []
   let acts ← (← jarr j "acts").mapM actOfJson
   let fromFile := match optObj j "fromfile" with | some (Json.bool b) => b | _ => false
+  let eupsPath ← jstrOpt j "eupspath"
   let acts := match prod with
-    | some p => if fromFile then PathAct.fromFile p acts else acts.map fun (f, a) => (f, a.expandMacros p)
+    | some p => if fromFile then PathAct.fromFile p eupsPath acts else acts.map fun (f, a) => (f, a.expandAll p eupsPath)
     | none => acts
   match run acts { env, oldEnv, aliases, oldAliases, force } with
   | .ok s => pure (Json.mkObj [("out", "ok"), ("env", envToJson s.env), ("aliases", envToJson s.aliases),
